@@ -347,7 +347,7 @@ func (r *Run) Finish() {
 	if evd["assumptions"] == nil || len(r.Assumptions) == 0 {
 		evd["assumptions"] = []string{}
 	}
-	if r.ReplayPath == "" {
+	if r.ReplayPath == "" && os.Getenv("VERIF_NO_EVIDENCE") == "" {
 		dir := filepath.Join(Root(), "evidence")
 		os.MkdirAll(dir, 0o755)
 		b, _ := json.MarshalIndent(evd, "", " ")
